@@ -30,7 +30,7 @@ BASE_ASSUMPTIONS = [
 
 ASM_ASSUME = ["operand strings reach the operand classes through Operand.create_from_str unchanged (the classification cascade itself is only checked structurally)"]
 
-prop("C01", ["TAB-1", "TAB-3", "TAB-4", "ENC-1", "ENC-2", "ENC-5", "ENC-7", "WID-1", "WID-3", "WID-8", "WID-5", "LAY-5", "WID-9"],
+prop("C01", ["TAB-1", "TAB-3", "TAB-4", "ENC-1", "ENC-2", "ENC-5", "ENC-7", "WID-1", "WID-3", "WID-8", "WID-5", "LAY-5", "WID-9", "TXT-1~parse_line:operand-case"],
      "every cell and flag of INSTRUCTIONS equals the MC6809 datasheet map; each operand class reads its own table column and rejects instructions lacking the mode; "
      "on every return path of both indexed encoders the post-byte, the size increment and the width of the offset bytes equal the datasheet form that the path's "
      "conditions describe (register field, 5/8/16-bit two's complement offsets, accumulator offsets, auto inc/dec, PCR, [n], indirect bit); PSH/PUL masks and TFR/EXG "
@@ -43,7 +43,7 @@ prop("C02", ["TAB-2", "TAB-1~flag:.*is_16_bit", "LAY-0", "LAY-1", "LAY-3", "LAY-
      "translate_statements run in the order expansion, collection, resolution, translation, sizing, addressing, fix-up, back-patch, each over all statements; the address pass is a single "
      "forward accumulation of code_pkg.size; every store into the symbol table is dominated by the redefinition check and undefined symbols raise; listing and image concatenate the same three fields.",
      "numeric equality of listing addresses and image offsets for concrete programs (it follows from the rules only where the width findings are repaired).", ASM_ASSUME)
-prop("C03", ["REL-1", "REL-3", "REL-5", "ENC-1", "ENC-3", "TAB-1", "TAB-2", "LAY-1~translate_statements:(fix-up-index|sizing-index)"],
+prop("C03", ["REL-1", "REL-3", "REL-5", "ENC-1", "ENC-3", "TAB-1", "TAB-2", "LAY-1~translate_statements:(fix-up-index|sizing-index)", "ENC-2~:size-constant"],
      "affine identity: the value emitted for every branch arm equals A[target] - A[this+1] modulo the field width, with the summed slices non-degenerate on the arm's guard; short branches are "
      "rejected exactly outside -128..+127; PC-relative sizing: each arm sets (size increment, max_size, post-byte choice, width hint) consistently, 8-bit is chosen only under an upper estimate "
      "that sums max_size over a window covering the displacement including the instruction itself, thresholds 127/128; label+n operands take their index through the address-expression predicate "
@@ -59,7 +59,7 @@ prop("C05", ["DIR-1", "WID-3", "WID-8", "WID-1", "TAB-1", "TXT-1~^(?!parse_line:
      "self-sized lists and strings) or reaches the empty CodePackage; list separators; string delimiters must match; FCC's closing delimiter is the first occurrence after the opening one; "
      "two's-complement rendering at the directive's width.",
      "byte-for-byte content for arbitrary lists and strings; range rejection (recorded finding: renderings are not range-checked).", ASM_ASSUME)
-prop("C06", ["CAS-1~:(name|name-source|name-filter|source|field\\d+\\(\\w+\\)|fields|data|continuation|length|pairing|address-bytes)$", "CAS-3", "CAS-5", "CAS-6", "VF-8"],
+prop("C06", ["CAS-1~:(name|name-source|name-filter|source|field\\d+\\(\\w+\\)|fields|data|continuation|length|pairing|address-bytes)$", "CAS-3", "CAS-5", "CAS-6", "VF-8", "WID-10"],
      "the reader consumes exactly the frames the writer produces: header signature, each header field read at the offset the writer stores it and delivered to the matching CoCoFile field, "
      "name length, where block search resumes, data blocks stepped over by exactly 4 + len + 2 with payload copied from offset 4, EOF frame length; writers never modify the data they are given.",
      "equality of data for all contents and lengths; tolerance of arbitrary foreign tapes.")
@@ -68,7 +68,7 @@ prop("C07", ["DSK-1", "DSK-2", "DSK-3", "DSK-4", "DSK-5", "DSK-12", "DSK-13", "V
      "read/write siblings agree on flags, offsets and lengths and on which file kind gets which; FAT links, terminator C0+sectors, reader masks; stream length computed identically by the three "
      "length functions (with and without trailer), sector and granule counts consistent for every length.",
      "equality of contents for all lengths, arbitrary foreign images; granule-bounded placement of the trailer (recorded finding DSK-5 is not re-derived statically).")
-prop("C08", ["DSK-1", "DSK-2~^(?!list_files)", "DSK-4~^(?!calculate_file_length|read_data|list_files)", "DSK-5", "DSK-6", "DSK-7", "DSK-12", "DSK-13", "DSK-8~^(?!add_file:allocation:(fit|refusal))", "DSK-3~^(?!list_files:table-lookup)", "VF-1~:errors$"],
+prop("C08", ["DSK-1", "DSK-2~^(?!list_files)", "DSK-4~^(?!calculate_file_length|read_data|list_files)", "DSK-5", "DSK-6", "DSK-7", "DSK-12", "DSK-13", "DSK-8~^(?!add_file:allocation:(fit|refusal))", "DSK-3~^(?!list_files:table-lookup)", "VF-1~:errors$", "DET-2~^(?!Program\\.|Statement\\.|assembler:)"],
      "image size and track-17 offsets; FAT encoding written and read (links, last-granule marker with 1-9 sectors, free marker FF only); blanking confined to FAT bytes 68-255; allocation only "
      "from granules whose FAT byte is FF, marked before the next search; fill order a permutation of 0..67; implied length (sectors, last-sector bytes) equals the stream length by construction.",
      "chain disjointness and length arithmetic for concrete file sequences.")
@@ -86,12 +86,12 @@ prop("C11", ["CLI-1", "VF-1", "VF-3", "CAS-3", "CAS-1", "CAS-5", "DSK-2", "DSK-3
      "builds the container of its kind and adds that very object; cassette/disk blocks are dominated by the no-name guard; BinaryFile appends the data only; containers do not consume the data "
      "(the same object is written to several containers).",
      "that listing the produced image returns the program (C06/C07); END operand as entry address.")
-prop("C12", ["WID-1", "WID-3", "WID-8", "WID-5", "WID-6", "LAY-5", "ENC-4", "ENC-5", "ENC-7", "TAB-1", "TAB-2", "TAB-3", "TAB-4", "REL-1", "WID-9", "EXP-2", "REL-3", "TXT-1~parse_line:operand-whole"],
+prop("C12", ["WID-1", "WID-3", "WID-8", "WID-5", "WID-6", "LAY-5", "ENC-4", "ENC-5", "ENC-7", "TAB-1", "TAB-2", "TAB-3", "TAB-4", "REL-1", "WID-9", "EXP-2", "REL-3", "TXT-1~parse_line:operand-whole", "ENC-2"],
      "modes the instruction lacks are rejected by every operand class; table cells exist only where the CPU has the mode; register recognition: every return path of the indexed encoders is realised "
      "by a grammar-valid operand only (probe spellings outside the grammar must raise); PSH/PUL/TFR/EXG reject unknown, own-stack and mixed-size registers; parse-time numeric limits; the width of "
      "`additional` at every sink against the mode's width.",
      "acceptance/rejection of arbitrary operand strings beyond the probe set and the classification cascade.", ASM_ASSUME)
-prop("C13", ["TERM-1", "ESC-1", "ESC-2", "CLI-1", "LAY-0", "TXT-2", "INC-1~(read-errors|trail(?!-identity))", "EXP-1~SymbolValue.resolve"],
+prop("C13", ["TERM-1", "ESC-1", "ESC-2", "CLI-1", "LAY-0", "TXT-2", "INC-1~(read-errors|codec|trail(?!-identity))", "EXP-1~SymbolValue.resolve"],
      "the sizing loop terminates because sizing fixes the size on every path; call cycles reachable from process are bounded (include trail checked, the others triaged); the explicit-raise escape "
      "fixpoint over the resolved call graph leaves only ParseError/TranslationError out of Program.process; every pass is wrapped by a handler that converts any exception into a diagnostic naming "
      "the statement; parse-phase first/last-character accesses are dominated by emptiness checks; the CLI handlers exit non-zero before any save.",
@@ -101,11 +101,11 @@ prop("C14", ["CAS-1~^(?!.*:(name-source|name-filter|source)$).*", "CAS-4", "CAS-
      "established by pairing every byte written with a checksum term, trailer 55; data payload byte i = data[i], continuation at the number of bytes written; file order leader, name-file, leader, "
      "data, EOF; only appends.",
      "nothing input-dependent: this property is decided completely under the stated assumptions.", ["data bytes are 0..255 and name characters are single-byte"])
-prop("C15", ["DSK-6", "DSK-7", "DSK-12", "DSK-13", "DSK-4~^(?!read_data|list_files)", "VF-1", "DET-2~^(?!Program\\.|Statement\\.|assembler:)", "DET-3", "CLI-3", "VF-5", "DSK-8~(:allocation|:fat|:length|:directory|:data|:sequence|allocation-count|size-guard|length-kind|\\[empty)", "VF-2", "CLI-4~:(save|end):", "DSK-2~write_dir_entry:(nul|name-characters)"],
+prop("C15", ["DSK-6", "DSK-7", "DSK-12", "DSK-13", "DSK-4~^(?!read_data|list_files)", "VF-1", "DET-2~^(?!Program\\.|Statement\\.|assembler:)", "DET-3~^(?!assembler:)", "CLI-3", "VF-5", "DSK-8~(:allocation|:fat|:length|:directory|:data|:sequence|allocation-count|size-guard|length-kind|\\[empty)", "VF-2", "CLI-4~:(save|end):", "DSK-2~write_dir_entry:(nul|name-characters|position)"],
      "the fill order offers all 68 granules once; allocation only of free granules, exhaustion raises; directory scan covers at least 68 slots and a full directory raises; granule count = "
      "floor(stream/2304)+1 for every stream length; the image is rebuilt in memory before the host file is touched.",
      "exact granule counts for concrete sequences of additions.")
-prop("C16", ["CLI-3", "VF-1", "VF-3", "VF-8", "DET-3", "CAS-3", "CAS-5", "DSK-2", "DSK-3", "DSK-12", "DSK-13", "DSK-4", "VF-5", "DSK-8", "CLI-4", "VF-9", "VF-6", "DSK-5", "VF-4~^get_coco_files", "CAS-1~append_name:bytes:name"],
+prop("C16", ["CLI-3", "VF-1", "VF-3", "VF-8", "DET-3~^(?!assembler:)", "CAS-3", "CAS-5", "DSK-2", "DSK-3", "DSK-12", "DSK-13", "DSK-4", "VF-5", "DSK-8", "CLI-4", "VF-9", "VF-6", "DSK-5", "VF-4~^get_coco_files", "CAS-1~(append_name:bytes:name|enum-conversion)", "WID-10"],
      "conversion loops add every listed file itself, in listing order, filtered only by --files, and save once; both sides of the --files comparison carry the same case normalisation; --to_bin "
      "refuses more than one file before any add/save; reader/writer layouts of both containers agree; stream-length arithmetic for all file kinds.",
      "equality of the converted file set for concrete images.")
@@ -114,11 +114,11 @@ prop("C17", ["DET-1", "DET-2", "DET-3", "DET-4", "DET-5", "DET-6"],
      "shared default objects are never mutated; the source-line list is only read; no iteration over sets, no hash/id/time/random/environment reads in the core; no memoisation. Each rule carries "
      "an embedded bad/good canary pair evaluated on every run.",
      "nothing further under the assumption of insertion-ordered dicts.", ["dict insertion order (Python >= 3.7)"])
-prop("C18", ["TXT-1", "EXP-1", "LAY-1", "WID-3", "WID-8", "DIR-1~^(?!.*:elements$)", "REL-1", "REL-5", "ENC-7", "TXT-2", "LAY-3", "LAY-5~get_binary_array"],
+prop("C18", ["TXT-1", "EXP-1", "LAY-1", "WID-3", "WID-8", "DIR-1~^(?!.*:elements$)", "REL-1", "REL-5", "ENC-7", "TXT-2", "LAY-3", "LAY-5~get_binary_array", "ENC-1~pcr-test"],
      "the mnemonic is upper-cased before lookup; the line pattern splits label/mnemonic/operands for any amount of white space; accumulator offsets are recognised by whole-string comparison "
      "(no substring tests on operand text); addresses are prefix-determined (single forward pass); one-byte width only for values <= 255.",
      "the metamorphic relations themselves (relocation, renaming, reformatting) for concrete programs.", ASM_ASSUME)
-prop("C19", ["INC-1", "LAY-0", "LAY-1~translate_statements:(phases|order)$", "TERM-1~process_mnemonics", "TXT-1~parse_line:operand-whole"],
+prop("C19", ["INC-1", "LAY-0", "LAY-1~translate_statements:(phases|order)$", "TERM-1~process_mnemonics", "TXT-1~parse_line:operand-whole", "ESC-2~^SourceFile"],
      "process_mnemonics iterates its input in order, keeps every ordinary statement, splices the recursive parse+expansion of the included file at the INCLUDE's position, opens the operand as "
      "written through the assembly reader, expansion precedes symbol collection; missing files and inclusion cycles raise a TranslationError.",
      "image equality with the spliced program for concrete programs.")
